@@ -294,6 +294,9 @@ pub fn generate(rng: &mut Rng, tier: Tier, emit: &mut dyn FnMut(String)) {
     // ---- the pager's typed stream over pages whose metadata differ ----
     gen_pager(rng, thorough, emit);
 
+    // ---- row-level binding and new_from_frame ----
+    gen_bindrow(rng, thorough, emit);
+
     // the 16-bit boundary on every bind path
     let ns: Vec<usize> = if thorough { vec![0, 1, 255, 256, 32767, 32768, 65534, 65535, 65536, 65537, 70000, 131071, 131072] } else { vec![1, 65534, 65535, 65536, 65537, 70000] };
     for kind in ["slice_i32", "slice_opt", "vec_str", "map", "writer", "add"] {
@@ -357,10 +360,13 @@ fn gen_pager(rng: &mut Rng, thorough: bool, emit: &mut dyn FnMut(String)) {
         out
     };
     let page = |rows: usize, new_id: bool, cols: &[PCol]| format!("{} {} {}", rows, new_id as u8, cols_str(cols));
-    for target in ["t_i32_i64", "t_i32_str", "t_i32", "s_pk_v", "row"] {
-        let nat = natural(target);
+    for target in ["t_i32_i64", "t_i32_str", "t_i32", "s_pk_v", "row", "S/t_i32_i64", "S/s_pk_v", "S/row"] {
+        let nat = natural(target.trim_start_matches("S/"));
         let vars = variants(&nat);
         for (ext, skip) in [(false, false), (false, true), (true, false)] {
+            if ext && target.starts_with("S/") {
+                continue; // the session cases run without the metadata-id extension
+            }
             let head = format!("pager {} {} {} | {}", target, ext as u8, skip as u8, cols_str(&nat));
             let nometa_ok = ext || skip;
             // all pages alike
@@ -405,5 +411,104 @@ fn gen_pager(rng: &mut Rng, thorough: bool, emit: &mut dyn FnMut(String)) {
                 emit(format!("{} | {}", head, pages.join(" | ")));
             }
         }
+    }
+}
+
+/// Row-level binds: positional (Vec / slice / tuple) and by-name rows against bind markers that match, that
+/// differ in number, in a column's type (every single-point mutation), in a name; keys without a marker and
+/// markers without a key; repeated marker names.  Frames for `new_from_frame`.
+fn gen_bindrow(rng: &mut Rng, thorough: bool, emit: &mut dyn FnMut(String)) {
+    let kinds: Vec<u8> = vec![0, 1, 3, 5, 6, 7, 8, 12, 14, 15, 16, 18, 19];
+    let val = |k: u8, v: u32| format!("{}:{} {}", k, v, dyn_shape(&dyn_value(k, v).0));
+    let cols_str = |cols: &[(String, Ty)]| if cols.is_empty() { "-".to_owned() } else { cols.iter().map(|(n, t)| format!("{} {}", n, ty_str(t))).collect::<Vec<_>>().join(" ; ") };
+    let join = |xs: Vec<String>| if xs.is_empty() { "-".to_owned() } else { xs.join(" ; ") };
+    let n_rows = if thorough { 400 } else { 40 };
+    for _ in 0..n_rows {
+        let n = rng.below(5) as usize;
+        let picks: Vec<(u8, u32)> = (0..n).map(|_| (*rng.pick(&kinds), *rng.pick(&[0u32, 0, 0, 1, 2, 3]))).collect();
+        let nat: Vec<(String, Ty)> = picks.iter().enumerate().map(|(i, (k, _))| (format!("c{}", i), dyn_value(*k, 0).1)).collect();
+        let seq_vals = join(picks.iter().map(|(k, v)| val(*k, *v)).collect());
+        let map_vals = join(picks.iter().enumerate().map(|(i, (k, v))| format!("c{} {}", i, val(*k, *v))).collect());
+        let mut variants: Vec<Vec<(String, Ty)>> = vec![nat.clone()];
+        // one more / one fewer bind marker
+        let mut more = nat.clone();
+        more.push((format!("c{}", n), Ty::Native(NativeType::Int)));
+        variants.push(more);
+        if n > 0 {
+            variants.push(nat[..n - 1].to_vec());
+            variants.push(nat[1..].to_vec());
+            // one column's type mutated
+            let i = rng.below(n as u64) as usize;
+            let ms = mutations(&nat[i].1);
+            for m in ms.iter().take(if thorough { 12 } else { 4 }) {
+                let mut c = nat.clone();
+                c[i].1 = m.clone();
+                variants.push(c);
+            }
+            // a marker renamed; a marker repeated
+            let mut c = nat.clone();
+            c[i].0 = "other".to_owned();
+            variants.push(c);
+            let mut c = nat.clone();
+            c.push(nat[i].clone());
+            variants.push(c);
+        }
+        for cols in &variants {
+            if cols.iter().any(|(_, t)| ty_str(t).contains("vector")) && false {
+                continue;
+            }
+            emit(format!("bindrow seq | {} | {}", cols_str(cols), seq_vals));
+            emit(format!("bindrow map | {} | {}", cols_str(cols), map_vals));
+        }
+    }
+    // the tuple (i32, String, Vec<i32>)
+    let t3 = tup3_shapes();
+    let int = Ty::Native(NativeType::Int);
+    let text = Ty::Native(NativeType::Text);
+    let li = Ty::List(Box::new(int.clone()));
+    let nat3 = vec![("a".to_owned(), int.clone()), ("b".to_owned(), text.clone()), ("c".to_owned(), li.clone())];
+    let mut vars = vec![nat3.clone(), nat3[..2].to_vec(), vec![]];
+    let mut four = nat3.clone();
+    four.push(("d".to_owned(), int.clone()));
+    vars.push(four);
+    for i in 0..3 {
+        for m in mutations(&nat3[i].1).into_iter().take(if thorough { 40 } else { 10 }) {
+            let mut c = nat3.clone();
+            c[i].1 = m;
+            vars.push(c);
+        }
+    }
+    for cols in &vars {
+        emit(format!("bindrow tup3 | {} | {}", cols_str(cols), t3));
+    }
+    // frames
+    let sers: Vec<&Entry> = all_entries().iter().filter(|e| e.add.is_some() && e.dynval.is_none()).collect();
+    for _ in 0..(if thorough { 300 } else { 40 }) {
+        let mut sv = SerializedValues::new();
+        for _ in 0..rng.below(6) {
+            let e = *rng.pick(&sers);
+            let _ = (e.add.unwrap())(rng.below(4) as u32, &to_column_type(&e.natural), &mut sv);
+        }
+        let mut buf = Vec::new();
+        sv.write_to_request(&mut buf);
+        emit(format!("frame {}", hex(&buf)));
+        let mut more = buf.clone();
+        let extra = 1 + rng.below(6) as usize;
+        more.extend_from_slice(&rng.bytes(extra));
+        emit(format!("frame {}", hex(&more)));
+        if buf.len() > 2 {
+            let cut = rng.below(buf.len() as u64) as usize;
+            emit(format!("frame {}", hex(&buf[..cut])));
+            let mut cnt = buf.clone();
+            cnt[1] = cnt[1].wrapping_add(1);
+            emit(format!("frame {}", hex(&cnt)));
+            let mut neg = buf.clone();
+            let p = 2 + rng.below((buf.len() - 2) as u64) as usize;
+            neg[p] ^= 0x80;
+            emit(format!("frame {}", hex(&neg)));
+        }
+    }
+    for h in ["-", "00", "0000", "0001", "0001ffffffff", "0001fffffffe", "0001fffffffd", "000180000000", "00010000000161", "0002ffffffff", "ffff"] {
+        emit(format!("frame {}", h));
     }
 }
